@@ -170,20 +170,24 @@ HDrain(st) ==
              np == IF st.p.ptr + n = Len(st.p.buf) THEN [st.p EXCEPT !.buf = <<>>, !.ptr = 0] ELSE [st.p EXCEPT !.ptr = @ + n]
          IN [st EXCEPT !.body = b, !.p = np, !.phase = (IF Len(b) = st.cl THEN "done" ELSE "body")]
 
+\* (model only) forget consumed bytes except the last one, which ungetc may step back to
+PNorm(p) == IF p.ptr > 1 THEN [p EXCEPT !.buf = Drop(@, p.ptr - 1), !.ptr = 1] ELSE p
+HNorm(st) == [st EXCEPT !.p = PNorm(@)]
+
 \* how many bytes the next socket read may take (0: the connection does not read now)
 HWant(st) == IF st.phase = "hdr" THEN HdrCap ELSE IF st.phase = "body" THEN st.cl - Len(st.body) ELSE 0
 
 \* one socket read delivering chunk (1 <= Len(chunk) <= HWant(st))
 HFeed(st, chunk, scripts) ==
     IF st.phase = "hdr"
-    THEN HDrain(HLoop([st EXCEPT !.p = [@ EXCEPT !.buf = chunk, !.ptr = 0], !.total = @ + Len(chunk)], scripts))
+    THEN HNorm(HDrain(HLoop([st EXCEPT !.p = [@ EXCEPT !.buf = chunk, !.ptr = 0], !.total = @ + Len(chunk)], scripts)))
     ELSE LET b == st.body \o chunk IN [st EXCEPT !.body = b, !.phase = (IF Len(b) = st.cl THEN "done" ELSE "body")]
 
 \* keep-alive re-arm (http::reset_all keeps the unread bytes of the shared buffer)
 HRearm(st, scripts) ==
     LET fresh == [HInit EXCEPT !.p = [PInit EXCEPT !.buf = st.p.buf, !.ptr = st.p.ptr]]
     IN IF st.p.ptr < Len(st.p.buf)
-       THEN HDrain(HLoop([fresh EXCEPT !.total = Len(st.p.buf) - st.p.ptr], scripts))
+       THEN HNorm(HDrain(HLoop([fresh EXCEPT !.total = Len(st.p.buf) - st.p.ptr], scripts)))
        ELSE fresh
 
 \* what the connection hands to the application once phase = "done"
